@@ -2,6 +2,8 @@ package simrt
 
 import (
 	"context"
+	crand "crypto/rand"
+	mrand "math/rand"
 	"fmt"
 	"hash/fnv"
 	"io"
@@ -14,6 +16,7 @@ import (
 	"testing"
 	"testing/synctest"
 	"time"
+	"unsafe"
 
 	"tunnox-core/internal/verifhook"
 )
@@ -65,6 +68,7 @@ type Result struct {
 // Task is a goroutine known to the scheduler.
 type Task struct {
 	ID        string
+	w         *World
 	born      string
 	gate      chan struct{}
 	site      string
@@ -101,7 +105,6 @@ type World struct {
 	cancel   context.CancelFunc
 	opt      Options
 	mu       sync.Mutex
-	tasks    map[uint64]*Task
 	all      []*Task
 	parked   map[*Task]struct{}
 	epoch    atomic.Uint64
@@ -119,18 +122,16 @@ type World struct {
 	stamp         atomic.Int64
 }
 
-func goid() uint64 {
-	var buf [64]byte
-	n := runtime.Stack(buf[:], false)
-	var id uint64
-	for _, c := range buf[10:n] {
-		if c < '0' || c > '9' {
-			break
-		}
-		id = id*10 + uint64(c-'0')
-	}
-	return id
-}
+// Task identity is goroutine-local: the runtime's per-goroutine profiler-label
+// slot (inherited by plain `go`, overwritten by every spawn through the hook)
+// holds the *Task. Parsing runtime.Stack for a goroutine id costs a full
+// traceback per hook (measured: 86% of CPU).
+//
+//go:linkname runtimeGetProfLabel runtime/pprof.runtime_getProfLabel
+func runtimeGetProfLabel() unsafe.Pointer
+
+//go:linkname runtimeSetProfLabel runtime/pprof.runtime_setProfLabel
+func runtimeSetProfLabel(labels unsafe.Pointer)
 
 // Run executes body as the root task of a fresh world inside one synctest
 // bubble and returns what happened. It never fails t.
@@ -149,8 +150,13 @@ func Run(t *testing.T, c *Choice, opt Options, body func(w *World)) (res *Result
 	}
 	res = &Result{Probes: map[string]int{}, Faults: map[string]int{}, States: map[string]int{}}
 	w := &World{C: c, T: t, Res: res, opt: opt,
-		tasks: map[uint64]*Task{}, parked: map[*Task]struct{}{}, extSeq: map[string]int{}}
+		parked: map[*Task]struct{}{}, extSeq: map[string]int{}}
+	// crypto/rand.Reader is the repository's only randomness source (ids, nonces, challenges, uuids):
+	// replace it for the run by a full-entropy but deterministic stream derived from the choice stream.
+	oldRand := crand.Reader
+	crand.Reader = &detRand{r: mrand.New(mrand.NewSource(int64(c.Intn(1<<30, "rand.seed")) + 99))}
 	defer func() {
+		crand.Reader = oldRand
 		verifhook.Install(nil)
 		if r := recover(); r != nil {
 			if e, ok := r.(error); ok && strings.HasPrefix(e.Error(), "deadlock:") {
@@ -178,18 +184,19 @@ func Run(t *testing.T, c *Choice, opt Options, body func(w *World)) (res *Result
 // ---------------------------------------------------------------- hooks
 
 func (w *World) taskFor(site string) *Task {
-	id := goid()
-	w.mu.Lock()
-	t := w.tasks[id]
-	if t == nil {
-		// goroutine created by uninstrumented code (timer callback, library)
-		w.extSeq[site]++
-		t = &Task{ID: "x:" + site + "#" + strconv.Itoa(w.extSeq[site]), born: site,
-			gate: make(chan struct{}), doneCh: make(chan struct{})}
-		w.tasks[id] = t
-		w.all = append(w.all, t)
+	if p := runtimeGetProfLabel(); p != nil {
+		if t := (*Task)(p); t.w == w && !t.done {
+			return t
+		}
 	}
+	// goroutine created by uninstrumented code (timer callback, library)
+	w.mu.Lock()
+	w.extSeq[site]++
+	t := &Task{ID: "x:" + site + "#" + strconv.Itoa(w.extSeq[site]), born: site, w: w,
+		gate: make(chan struct{}), doneCh: make(chan struct{})}
+	w.all = append(w.all, t)
 	w.mu.Unlock()
+	runtimeSetProfLabel(unsafe.Pointer(t))
 	return t
 }
 
@@ -280,15 +287,12 @@ func (w *World) Go(site string, f func()) {
 }
 
 func (w *World) spawn(id, site string, harness bool, f func()) *Task {
-	t := &Task{ID: id, born: site, gate: make(chan struct{}), doneCh: make(chan struct{}), harness: harness}
+	t := &Task{ID: id, born: site, w: w, gate: make(chan struct{}), doneCh: make(chan struct{}), harness: harness}
 	w.mu.Lock()
 	w.all = append(w.all, t)
 	w.mu.Unlock()
 	go func() {
-		gid := goid()
-		w.mu.Lock()
-		w.tasks[gid] = t
-		w.mu.Unlock()
+		runtimeSetProfLabel(unsafe.Pointer(t))
 		defer func() {
 			if r := recover(); r != nil {
 				if w.crashSentinel != nil && r == w.crashSentinel {
@@ -299,8 +303,8 @@ func (w *World) spawn(id, site string, harness bool, f func()) *Task {
 			}
 			w.mu.Lock()
 			t.done = true
-			delete(w.tasks, gid)
 			w.mu.Unlock()
+			runtimeSetProfLabel(nil)
 			close(t.doneCh)
 			select {
 			case w.activity <- struct{}{}:
@@ -646,4 +650,31 @@ func (w *World) Sleep(d time.Duration) {
 	w.mu.Unlock()
 	time.Sleep(d)
 	w.Yield("sleep.wake")
+}
+
+// Quiet runs f in the calling task with scheduling points suppressed (hooks
+// pass through). Use it for world construction while no other task has run
+// yet: wiring a node executes thousands of instrumented statements that need
+// no interleaving. Tasks spawned inside f are still parked at birth.
+func (w *World) Quiet(f func()) {
+	if w.free.Load() {
+		f()
+		return
+	}
+	t := w.taskFor("quiet")
+	t.suppress++
+	defer func() { t.suppress-- }()
+	f()
+}
+
+// detRand is a deterministic crypto/rand.Reader replacement.
+type detRand struct {
+	mu sync.Mutex
+	r  *mrand.Rand
+}
+
+func (d *detRand) Read(p []byte) (int, error) {
+	d.mu.Lock()
+	defer d.mu.Unlock()
+	return d.r.Read(p)
 }
